@@ -53,6 +53,12 @@ CHECKS.update({
                     "MonChunk.tla re-checks Partition on what the real code returned. thorough = all 1<=T<=N<=1024.",
             "ref": "6/C09", "note": "pure function: the whole stated domain is enumerated in the thorough tier; quick uses N<=96 plus the bucket sizes in use",
             "technique": "TLA+ transcription model-checked exhaustively (TLC) + table replay into the real function + TLC re-check of its outputs"},
+    "C18": {"text": "Version.tla transcribes Higher/Equal/Lower, the parser over field structures and the three gates; TLC checks "
+                    "trichotomy, antisymmetry, transitivity (all triples), equality with the lexicographic order, gate monotonicity and "
+                    "parse(render(t)) = t for every pair of the grid around the gates; every pair goes through the real methods and "
+                    "MonVersion.tla judges their answers; malformed strings are compared with the specification's parser.",
+            "ref": "6/C18", "note": "grid {4..8}x{0,1,2,4,5,6}x{0,1,2}x{0,1} (thorough); gating inside newDcp itself needs a cluster (rig B)",
+            "technique": "TLA+ transcription model-checked exhaustively (TLC) + table replay into the real methods + TLC re-check of their outputs"},
     "C19": {"text": "HealthCheck.tla models run / performHealthCheck / Start / Stop at the granularity of the client's Ping call; TLC checks "
                     "exhaustively (two rounds, every pattern, Stop anywhere) that the process dies exactly on five consecutive failures of "
                     "a round, that Stop returns and that no ping follows it; all 2^5 round patterns, second rounds and Stop positions are "
